@@ -66,7 +66,7 @@ def boson_frame(w, h, fid, level, zero_at=None):
 
 
 def build_conn(rng, settings, w, h, fps, model, first_id, nitems, with_clear=True, with_bad=False, brand="flir",
-               clear_runs=False, sustain=0.0, rm_temps=0, end_in_motion=False):
+               clear_runs=False, sustain=0.0, rm_temps=0, end_in_motion=False, burst_after_clear=False):
     """Returns (conn dict for the driver, model events for SystemTrace, next id)."""
     boson = model == "boson"
     fsize = 2 * w * h if boson else 640 + 2 * w * h
@@ -105,6 +105,7 @@ def build_conn(rng, settings, w, h, fps, model, first_id, nitems, with_clear=Tru
             storm = (i0, i0 + trig + 2, i0 + trig + 4)
             rm_items.add(storm[1])
             forced.add(storm[2])
+    nopace = 0
     while i < nitems:
         r = rng.random()
         if i in rm_items:
@@ -121,6 +122,11 @@ def build_conn(rng, settings, w, h, fps, model, first_id, nitems, with_clear=Tru
                 pace_at.append(len(payload))
             pace_at.pop()
             since = 0
+            if burst_after_clear and not any(j in rm_items for j in range(i, i + 8)):
+                nopace = 3 + (i % 3)      # the marker and the next few frames reach the daemon in one piece (no waiting
+                                          # for it in between): the reset must still take effect before the first of them
+                i += 1
+                continue
         elif with_bad and r < 0.06:
             z = rng.randrange(1, w * h)
             payload += boson_frame(w, h, 60000, 200, z) if boson else lepton_frame(w, h, 60000, 200, 60000 + fid * 100, z)
@@ -140,6 +146,10 @@ def build_conn(rng, settings, w, h, fps, model, first_id, nitems, with_clear=Tru
             ev.append(dict(ev="frame", id=fid, motion=toggle))
             fid += 1
             since += 1
+            if nopace > 0:
+                nopace -= 1
+                i += 1
+                continue
         pace_at.append(len(payload))
         i += 1
     cuts = rng.choice([[], [1], [7, 100, 3], [fsize], [fsize - 1, 2], [5], [4, 1], [rng.randint(1, 3 * fsize) for _ in range(7)]])
@@ -872,6 +882,14 @@ def c13_runs(ctx, binp):
         settings["const"] = (k % 2 == 0)
         model = ["lepton3", "boson", "lepton3.5"][k % 3]
         conn, ev, fid = build_conn(rng, settings, 4, 3, fps, model, 1, rng.randint(40, 90), with_clear=True, with_bad=True)
+        if k % 3 == 1:
+            # a Boson is never power-cycled by the daemon's restart request, so no 'clear' ever follows: several bad frames
+            # on one connection without a marker between them, each to be reported
+            brng = ctx.sub_rng("fam_e2e.11.boson%d" % k)
+            for attempt in range(20):
+                conn, ev, fid = build_conn(brng, settings, 4, 3, fps, model, 1, brng.randint(50, 90), with_clear=False, with_bad=True)
+                if sum(1 for e in ev if e["ev"] == "bad") >= 3:
+                    break
         scen = dict(config=toml(settings), prefiles=[], conns=[conn])
         try:
             evs = run_e2e(ctx, binp, scen, "c13_%d" % k)
